@@ -17,7 +17,7 @@ const appctlPkg = "pkg/appctl"
 func propC20() *Property {
 	return &Property{
 		ID:      "C20",
-		Decides: "R20.1 the two merge functions are exhaustive over the generated configuration messages (a field added to the .proto and not to the merge is reported by name) and every merged field is selected by a nil test of the same field of the patch and fed from the same field of patch/stored config; R20.2 the share-link writer and reader use the same query keys, scheme strings and base64 alphabet, and user name / password are taken from the parsed URL as they are (no second unescaping); R20.3 the stored server file never holds a plaintext password: the only write of the server config file is in StoreServerConfig, dominated by HashUserPasswords(users, false) whose result is what gets marshalled, and HashUserPassword with keepPlaintext=false has no feasible return that keeps a non-empty Password; R20.4 a patch is merged into the loaded/fetched configuration and fully validated before it is stored — for the local apply functions and for the CLI's RPC path; R20.5 string slicing with a constant bound in the link parsers is guarded by a length/prefix test; R20.6 each store function writes the file once with the complete marshalled message.",
+		Decides: "R20.1 the two merge functions are exhaustive over the generated configuration messages (a field added to the .proto and not to the merge is reported by name) and every merged field is selected by a nil test of the same field of the patch and fed from the same field of patch/stored config; R20.2 the share-link writer and reader use the same query keys, scheme strings and base64 alphabet, and user name / password are taken from the parsed URL as they are (no second unescaping); R20.3 the stored server file never holds a plaintext password: the only write of the server config file is in StoreServerConfig, dominated by HashUserPasswords(users, false) whose result is what gets marshalled, and HashUserPassword with keepPlaintext=false has no feasible return that keeps a non-empty Password; R20.4 a patch is merged into the loaded/fetched configuration and fully validated before it is stored — for the local apply functions and for the CLI's RPC path; R20.5 string slicing with a constant bound in the link parsers is guarded by a length/prefix test; R20.6 each store function writes the file once with the complete marshalled message.; R20.7 the traffic-pattern validator and the cipher (which panics on a decode failure) hand the same string - the configured element itself, with no normalisation on one side only - to hex.DecodeString, so a validated configuration cannot crash the process at its first encryption",
 		NotDecided: "round-trip equality for every field content (URL escaping, base64 of arbitrary strings, JSON/protobuf equivalence are library behaviour); start-up of a stored configuration; run-time panics beyond the constant-bound slice pattern.",
 		Rules: []Rule{
 			{ID: "R20.1", Floor: 16, Text: "mergeServerConfig / mergeClientConfigByProfile assign every exported field of the message after proto.Reset, each from the same-named field", Run: r20_1},
@@ -25,6 +25,7 @@ func propC20() *Property {
 			{ID: "R20.3", Floor: 3, Text: "server config writes hash and clear passwords", Run: r20_3},
 			{ID: "R20.4", Floor: 4, Text: "patch -> load/fetch -> merge -> validate full -> store", Run: r20_4},
 			{ID: "R20.5", Floor: 1, Text: "constant-bound string slices in pkg/appctl are dominated by a length or prefix test covering the bound", Run: r20_5},
+			{ID: "R20.7", Floor: 2, Text: "validator and consumer of the custom nonce prefixes decode the same string", Run: r20_7},
 			{ID: "R20.6", Floor: 2, Text: "exactly one os.WriteFile of the marshalled message per store function", Run: r20_6},
 		},
 	}
@@ -734,4 +735,91 @@ func underFileNotExist(in ssa.Instruction) bool {
 		}
 	}
 	return false
+}
+
+// r20_7: validator and consumer of the custom nonce prefixes decode the same
+// string. The consumer (pkg/cipher, which panics on a decode error) and the
+// validator (apis/trafficpattern) both hand the configured element itself to
+// hex.DecodeString; a validator that normalises first (TrimSpace, ToLower,
+// ...) accepts configurations the consumer crashes on (seed C20f).
+func r20_7(c *RC) {
+	p := c.P
+	type site struct {
+		fn    *ssa.Function
+		call  *ssa.Call
+		chain []string
+	}
+	var sites []site
+	for _, fn := range p.Funcs("apis/trafficpattern", "pkg/cipher") {
+		instrs(fn, func(_ *ssa.BasicBlock, _ int, in ssa.Instruction) {
+			cl, ok := in.(*ssa.Call)
+			if !ok || calleeID(cl) != "encoding/hex.DecodeString" {
+				return
+			}
+			// walk from the argument back to GetCustomHexStrings, recording calls passed through
+			var chain []string
+			fromGetter := false
+			v := cl.Call.Args[0]
+			for i := 0; i < 8 && v != nil; i++ {
+				switch x := v.(type) {
+				case *ssa.Call:
+					if calleeName(x) == "GetCustomHexStrings" {
+						fromGetter = true
+						v = nil
+						continue
+					}
+					chain = append(chain, strings.TrimPrefix(calleeID(x), modPath+"/"))
+					if len(x.Call.Args) > 0 {
+						v = x.Call.Args[0]
+					} else {
+						v = nil
+					}
+				case *ssa.UnOp:
+					v = x.X
+				case *ssa.IndexAddr:
+					v = x.X
+				case *ssa.Index:
+					v = x.X
+				case *ssa.Phi:
+					// range loop element: follow any edge that is not the phi itself
+					v = nil
+					for _, e := range x.Edges {
+						if e != ssa.Value(x) {
+							v = e
+						}
+					}
+				case *ssa.Extract:
+					v = x.Tuple
+				case *ssa.Next:
+					v = x.Iter
+				case *ssa.Range:
+					v = x.X
+				default:
+					v = nil
+				}
+			}
+			if fromGetter {
+				sites = append(sites, site{fn, cl, chain})
+			}
+		})
+	}
+	if len(sites) < 2 {
+		c.Undecided("nonce-prefix-decoders", token.NoPos, "expected a validator and a consumer decoding GetCustomHexStrings(), found %d site(s)", len(sites))
+		return
+	}
+	ref := strings.Join(sites[0].chain, ">")
+	agree := true
+	for _, s := range sites[1:] {
+		if strings.Join(s.chain, ">") != ref {
+			agree = false
+		}
+	}
+	for _, s := range sites {
+		key := "nonce-prefix-decoder@" + fnName(s.fn)
+		if agree {
+			c.OKH(key, s.call.Pos(), "decodes the configured element as it is (normalisation chain: %v)", s.chain)
+		} else {
+			c.Bad(key, s.call.Pos(), "the configured custom nonce prefix is decoded after %v here but after a different chain elsewhere: the validator then accepts strings on which the consumer in pkg/cipher fails (and panics), so a configuration that passed validation crashes the process at its first encryption", s.chain)
+		}
+	}
 }
